@@ -17,7 +17,7 @@ RULE = ("generated generator bodies (actions spanning yields, logging, try/excep
         "another exception, nested decorated or plain sub-generators via `yield from` or manual iteration, return values, raised "
         "exceptions) are wrapped with eliot_friendly_generator_function; 1-4 such generators are driven alternately by a generated "
         "script over next / send(v) / throw(E) / close (also before start and after exhaustion), each step run under one of several "
-        "surrounding driver actions, under no action, or on a fresh thread. Probes: inside the body after every resumption "
+        "surrounding driver actions (which may be finished between steps while generators started in them are suspended), under no action, or on a fresh thread. Probes: inside the body after every resumption "
         "current_action() IS the top of the generator's own shadow stack (action current at first resumption + actions entered "
         "since); in the driver after every step it IS what it was before. Differential: the same script on the UNDECORATED generator "
         "must give the same trace of yielded values, received values, thrown-in and raised exception objects, close() behaviour and "
@@ -317,6 +317,10 @@ def execute(bodies, script, decorated, tape):
 
     for st in script:
         where = st["ctx"]
+        if st["op"] == "finish_ctx":
+            # a surrounding driver action ends while generators started inside it are suspended; they are resumed later on
+            drv[where].finish()
+            continue
         fn = (lambda st=st: step(st))
         if st.get("thread"):
             target = fn if where is None else (lambda fn=fn, where=where: drv[where].run(fn))
@@ -346,7 +350,11 @@ def one(seed, i, res):
     for s in range(rng.randint(3, 24)):
         r = rng.random()
         st = {"g": rng.randrange(ngen), "ctx": rng.choice([None, 0, 1, 2]), "thread": rng.random() < 0.15, "val": 5000 + s}
-        if r < 0.5:
+        if r < 0.06:
+            st["op"] = "finish_ctx"
+            st["ctx"] = rng.choice([0, 1, 2])
+            st["thread"] = False
+        elif r < 0.5:
             st["op"] = "next"
         elif r < 0.72:
             st["op"] = "send"
